@@ -6,6 +6,8 @@ package nexus
 
 //@ func (*io/nexus.Parser).Parse
 //@   flag treeop
+//@   flag countcalls
+//@   call (*tree.Tree).Rename [the_tree_just_parsed_is_translated_with_the_table_of_the_trees_block] a0 == t && a1 == p.translationTable
 //@   requires pw(p)
 //@   allocates Nexus, []*tree.Tree, []string, map[string]bool
 //@   ensures [document_or_error] result1 == nil ==> result0 != nil
@@ -18,6 +20,7 @@ package nexus
 //@     complete [all_iterations_no_early_exit]
 //@   loop 3
 //@     complete [all_iterations_no_early_exit]
+//@     step [every_tree_is_translated_exactly_when_there_is_a_table_whether_or_not_there_is_a_taxa_block] ghost(ncalls_Rename) == atHead(ghost(ncalls_Rename)) + (p.translationTable != nil ? 1 : 0) && ghost(ncalls_AddTree) == atHead(ghost(ncalls_AddTree)) + 1
 //@   loop 4
 //@     complete [all_iterations_no_early_exit]
 
@@ -268,6 +271,8 @@ package nexus
 //@     invariant [well_formed] pw(p) && p.s == old(p.s) && p.s.r == old(p.s.r)
 //@     invariant [measure_does_not_grow] pm(p) <= old(pm(p)) && pm(p) <= lold(pm(p))
 //@     decreases pm(p) + (tok4 == EOF ? 0 : 1)
+//@     step [the_tree_string_takes_the_text_of_every_token_in_reading_order] next(tree) == tree + lit4
+//@   call fmt.Errorf [a_tree_string_is_refused_only_at_a_token_that_cannot_be_part_of_one_numbers_can] a0 == "Expecting a tree after 'TREE name =', got  %q" ==> tok4 != IDENT && tok4 != OPENBRACK && tok4 != CLOSEBRACK && tok4 != COMMA && tok4 != EQUAL && tok4 != NUMERIC
 
 // ---------------------------------------------------------------------------
 // WriteNexus (property C13): a label met for the first time gets the next free number as identifier, the tree is
